@@ -213,6 +213,7 @@ class Tracer:
         self.fn = fn
         self.c = fn["crate"]
         self.env = {}
+        self.fenv = {}
         self.events = []
         self.guards = []
         self.loops = []
@@ -340,6 +341,9 @@ class Tracer:
         return Term("not", (v,))
 
     def ev_Field(self, n):
+        b = strip(n["e"])
+        if b["k"] == "Path" and "local" in b and (b["local"], n["name"]) in self.fenv:
+            return self.fenv[(b["local"], n["name"])]
         v = self.ev(n["e"])
         if isinstance(v, Tup) and n["name"].isdigit() and int(n["name"]) < len(v.items):
             return v.items[int(n["name"])]
@@ -380,6 +384,9 @@ class Tracer:
         root = self.lhs_root(tgt)
         if tgt["k"] == "Path" and "local" in tgt:
             self.env[tgt["local"]] = r if r is not None else Term("local:%s@%d" % (tgt["name"], self._fresh()))
+        elif tgt["k"] == "Field" and strip(tgt["e"])["k"] == "Path" and "local" in strip(tgt["e"]) and r is not None:
+            # field-sensitive: remember the value stored into `x.f`, keep `x` itself
+            self.fenv[(strip(tgt["e"])["local"], tgt["name"])] = r
         elif root is not None:
             self.env[root["local"]] = Term("mutated:%s@%d" % (root["name"], self._fresh()))
         return None
@@ -509,7 +516,7 @@ class Tracer:
                     if n["name"] == "split_off":
                         e.val = v = Term("tail", (old, args[0]))
                 elif not isinstance(old, Slice):
-                    self.env[root["local"]] = Term("mut:%s.%s@%d" % (root["name"], n["name"], self._fresh()), (old,) if old is not None else ())
+                    self.env[root["local"]] = Term("mut:%s" % n["name"], ((old,) if old is not None else ()) + tuple(args))
         return v
 
     def call_value(self, name, d, recv, args, n):
@@ -539,19 +546,25 @@ class Tracer:
             gv = v
             self.guards.append(("+", g, n, v))
             self.bind(c["pat"], v)
-            self.ev(n["then"])
+            self._then_val = self.ev(n["then"])
             self.guards.pop()
         else:
             cv = self.ev(c)
             g = k(cv)
             gv = cv
             self.guards.append(("+", g, n, cv))
-            self.ev(n["then"])
+            self._then_val = self.ev(n["then"])
             self.guards.pop()
+        tv = self._then_val
+        ev_ = None
         if n.get("else"):
             self.guards.append(("-", g, n, gv))
-            self.ev(n["else"])
+            ev_ = self.ev(n["else"])
             self.guards.pop()
+        if tv is not None and ev_ is not None:
+            if isinstance(tv, Tup) and isinstance(ev_, Tup) and len(tv.items) == len(ev_.items):
+                return Tup([Term("ite", (Term("cond:" + g), a, b)) for a, b in zip(tv.items, ev_.items)])
+            return Term("ite", (Term("cond:" + g), tv, ev_))
         return Term("<if@%d>" % self._fresh())
 
     def ev_Let(self, n):
@@ -574,6 +587,19 @@ class Tracer:
                 inner = sv.args[0]
             self.emit("try", val=inner, node=n)
             return inner
+        if src == "Normal" and len(n["arms"]) == 1 and n["arms"][0]["pat"]["k"] == "Bind" and isinstance(sv, Term) and (sv.op.startswith("struct:std::ops::Range") or sv.op.startswith("def:std::ops::RangeFull") or isinstance(sv, Term) and n["arms"][0]["pat"].get("name") == "r"):
+            # expansion of ndarray's s![..] macro: match <range> { r => { .. SliceInfo::new_unchecked(..) } }
+            from .facts import walk as _walk
+            body = n["arms"][0]["body"]
+            if any(x.get("k") == "Call" and (self.c.dfn(strip(x["f"]).get("def")) or {}).get("name") in ("new_unchecked", "next_in_dim") for x in _walk(body)):
+                self.bind(n["arms"][0]["pat"], sv)
+                inner = None
+                for x in _walk(body):
+                    if x is not n and x.get("k") == "Match" and x.get("src") == "Normal" and len(x["arms"]) == 1 and x["arms"][0]["pat"].get("name") == "r":
+                        inner = self.ev(x)
+                        break
+                parts = [sv] + (list(inner.args) if isinstance(inner, Term) and inner.op == "s!" else [])
+                return Term("s!", parts)
         vals = []
         for a in n["arms"]:
             g = "%s ~ %s" % (k(sv), pat_name(self.c, a["pat"]))
